@@ -340,6 +340,16 @@ fn pick_summary(rng: &mut Rng, existing: &[String], tag: &str) -> Summary {
                     artifact_exists: false,
                 }
             }
+            7 if rng.bool() => {
+                // blank text: whether it is refused or accepted (with a bundle for the empty text) is the
+                // implementation's choice, but an accepted handoff must still carry something resolvable
+                return Summary {
+                    class: "blank_text",
+                    markdown: Some(["", " ", "\n", " \t\n "][rng.usize(4)].to_string()),
+                    artifact_id: None,
+                    artifact_exists: false,
+                };
+            }
             7 => {
                 return Summary {
                     class: "neither",
@@ -617,7 +627,7 @@ fn call_and_judge(
                 out.violated = true;
             }
         }
-        (None, Expect::Accept { .. }) if sum_class == "both_missing" || sum_class == "missing_artifact" => {
+        (None, Expect::Accept { .. }) if sum_class == "both_missing" || sum_class == "missing_artifact" || sum_class == "blank_text" => {
             // text + an artifact id that names no blob: the statement only demands that a handoff that
             // exists carries a resolvable summary, so refusing the dangling id is as good as accepting
             // the request on the strength of the text. A refusal must not append anything.
